@@ -391,6 +391,8 @@ def setup():
 
 
 def main():
+    import warnings
+    warnings.simplefilter("ignore")
     if len(sys.argv) >= 2 and sys.argv[1] == 'setup':
         sys.exit(setup())
     if len(sys.argv) >= 3 and sys.argv[1] == 'replay':
